@@ -288,7 +288,7 @@ Definition generic_rules (op : binop) (l r : expr) (a : ann) : option expr :=
 Lemma binop_rules_unfold : forall op l r a,
     binop_rules op l r a =
     match const_val l, const_val r with
-    | Some x, Some y => match cfold op x y with Some v => Some (EConst v (ann_of l)) | None => None end
+    | Some x, Some y => match cfold op x y with Some v => Some (EConst v (mkAnn (aty a) (asrc (ann_of l)))) | None => None end
     | _, _ => generic_rules op l r a
     end.
 Proof. intros. unfold binop_rules, generic_rules. destruct (const_val l), (const_val r); reflexivity. Qed.
@@ -391,7 +391,7 @@ Example simp_e_hyps_satisfiable :
   let rho := fun _ : sym => 0 in
   let cv := fun _ _ : string => 0 in
   facts_sound fs rho cv /\ bool_ok rho cv (EBin OAdd (EVar i a) (EVar i a) a) /\
-  simp_e fs (EBin OAdd (EVar i a) (EVar i a) a) = Some (EConst 0 (mkAnn TInt 1)).
+  simp_e fs (EBin OAdd (EVar i a) (EVar i a) a) = Some (EConst 0 (mkAnn TIndex 1)).
 Proof.
   cbn zeta. split; [|split].
   - apply add_fact_sound; [intros k v []|cbn; lia].
